@@ -7,7 +7,7 @@
 (*   document validation.                                                                                    *)
 EXTENDS Sequences, FiniteSets
 Class(line, bad) ==
-   IF bad = {"returns_normally"} /\ "recursive_schema_default" \in {line.c.feats[i] : i \in DOMAIN line.c.feats}
+   IF bad = {"returns_normally"} /\ "recursive_schema_default" \in (LET fs == IF "feats" \in DOMAIN line.c THEN line.c.feats ELSE line.c.feat IN {fs[i] : i \in DOMAIN fs})
       /\ "validate_request" \in DOMAIN line.obs /\ line.obs["validate_request"] = "crash"
       /\ \A s \in DOMAIN line.obs : line.obs[s] \notin {"panic", "hang"}
    THEN "recursive_default_injection_overflows"
